@@ -279,7 +279,11 @@ func (f *FibStrategyHashTable) FindStrategyEnc(name enc.Name) enc.Name {
 func (f *FibStrategyHashTable) InsertNextHopEnc(name enc.Name, nexthop uint64, cost uint64) {
 	f.fibStrategyRWMutex.Lock()
 	defer f.fibStrategyRWMutex.Unlock()
+	f.insertNextHop(name, nexthop, cost)
+}
 
+// insertNextHop is InsertNextHopEnc without locking (the caller holds the write lock).
+func (f *FibStrategyHashTable) insertNextHop(name enc.Name, nexthop uint64, cost uint64) {
 	realEntry := f.insertEntryEnc(name)
 
 	for _, existingNextHop := range realEntry.nexthops {
@@ -302,7 +306,23 @@ func (f *FibStrategyHashTable) InsertNextHopEnc(name enc.Name, nexthop uint64, c
 func (f *FibStrategyHashTable) ClearNextHopsEnc(name enc.Name) {
 	f.fibStrategyRWMutex.Lock()
 	defer f.fibStrategyRWMutex.Unlock()
+	f.clearNextHops(name)
+}
 
+// ReplaceNextHopsEnc replaces the nexthops of every listed prefix in one atomic step.
+func (f *FibStrategyHashTable) ReplaceNextHopsEnc(updates []FibNextHopsUpdate) {
+	f.fibStrategyRWMutex.Lock()
+	defer f.fibStrategyRWMutex.Unlock()
+	for _, update := range updates {
+		f.clearNextHops(update.Name)
+		for _, nexthop := range update.NextHops {
+			f.insertNextHop(update.Name, nexthop.Nexthop, nexthop.Cost)
+		}
+	}
+}
+
+// clearNextHops is ClearNextHopsEnc without locking (the caller holds the write lock).
+func (f *FibStrategyHashTable) clearNextHops(name enc.Name) {
 	entry, ok := f.realTable[name.Hash()]
 	if ok {
 		entry.nexthops = make([]*FibNextHopEntry, 0)
